@@ -6,7 +6,7 @@
 //	followUp    a collection that a sweep probe got ACCEPTED must be usable: one valid insert, one valid search
 //	            per ranking index (an accepted schema that no index can be built from shows here as a 5xx / a death
 //	            / a hang of a VALID request, with the create request in the replay)
-//	depthSweep  a well-formed, a wrong-length-vector and an unindexed-property leaf at the bottom of chains of 31 ..
+//	depthSweep  a well-formed, a wrong-length-vector, an unindexed-property and an over-limit leaf at the bottom of chains of 31 ..
 //	            40 levels through each of the five recursion sites of a query, and through all five in turn
 package main
 
@@ -239,6 +239,12 @@ func (rn *runner) depthSweep() {
 		{"vector-len", func() *N { return b.flatLeaf(2, b.good()) }},
 		{"unindexed", func() *N {
 			return Obj("property", Str("note"), "string", Obj("value", Str("x"), "operator", Str("equals")))
+		}},
+		// refused by Query.Validate (the schema-independent pass recurses through the same five sites)
+		{"leaf-limit", func() *N {
+			q := b.flatLeaf(3, nil)
+			q.Get("vectorFlat").Set("limit", Int(76))
+			return q
 		}},
 	}
 	k := 0
